@@ -53,8 +53,8 @@ func c02Build() *c02World {
 	ours := kit.OwnerRef(kit.Thing, "p", "puid", true)
 	// bystanders at desired names and elsewhere
 	w.Sim.Seed(kit.Ann(kit.Owners(att(kit.Leaf, "n1", "f", "0"), ours), c02Marker, "other-dc")) // another decorator's attachment for the same target
-	w.Sim.Seed(att(kit.Leaf, "n1", "h", "0"))                                                    // unrelated object at a desired name
-	w.Sim.Seed(kit.Owners(att(kit.Leaf, "n1", "nomark", "0"), ours))                              // owned by the target, no marker
+	w.Sim.Seed(att(kit.Leaf, "n1", "h", "0"))                                                   // unrelated object at a desired name
+	w.Sim.Seed(kit.Owners(att(kit.Leaf, "n1", "nomark", "0"), ours))                            // owned by the target, no marker
 	w.Sim.Seed(kit.Ann(kit.Owners(att(kit.Leaf, "n1", "foreign", "0"), kit.OwnerRef(kit.Thing, "q", "quid", true)), c02Marker, "dc"))
 	q := kit.Obj(kit.Thing, "n1", "q")
 	kit.Field(q, "quid", "metadata", "uid")
